@@ -256,28 +256,29 @@ def run(rep, program: Program, tier: str) -> None:
         "provenance of arrays wrapped without masking."
     )
     rep.assumptions = ["sqrt @ sqrt.T == metric for each matrix class is C10", "rng.standard_normal / rng.normal are NumPy's standard normal draws"]
-    rule_r1(rep, program)
-    rule_r2(rep, program)
+    rep.isolate(rule_r1, rep, program)
+    rep.isolate(rule_r2, rep, program)
     r5, r6 = c04.rule_r5_r6(rep, program)
     rep.rules = [x for x in rep.rules if x is not r5]
     r6.rule = "R3"
     for fd in r6.findings:
         fd.rule, fd.prop = "R3", PROP
-    rule_r4(rep, program)
+    rep.isolate(rule_r4, rep, program)
     # the factor L = metric.sqrt of every matrix class: L L^T = M (C10-R4 / C10-R2 restricted to the
     # square-root members; imported lazily, c10 imports this module)
     from . import c10
 
     n0 = len(rep.rules)
-    _r1, r4, _r5 = c10.rule_algebra(rep, program)
+    _r1, r4, r5c = c10.rule_algebra(rep, program)
     rp = c10.rule_parity(rep, program)
     rep.rules = rep.rules[:n0]
     r = rep.rule("R5", "square-root factors: S S^T = M in the operator algebra for every class whose sqrt the momentum draw can use; sign-carrying low-rank sqrt has pure parity", floor=6)
     r.units = {u for u in (r4.units or set()) if u[1] == "_construct_sqrt"}
     r.instances = r.exercised = len(r.units) + sum(1 for x in rp.samples if "_construct_sqrt" in str(x))
-    for src in (r4, rp):
+    for src in (r4, rp, r5c):
         for fd in src.findings:
-            if "_construct_sqrt" in fd.key:
+            # sqrt members, and triangular factors handed on to a new matrix (its sqrt *is* that factor)
+            if "_construct_sqrt" in fd.key or "factor-cache" in fd.key:
                 fd.rule, fd.prop = "R5", PROP
                 r.findings.append(fd)
     rep.extra.pop("members_outside_algebra", None)
